@@ -575,7 +575,21 @@ func (e *Engine) step(g *Goroutine) stepResult {
 		e.set(fr, x, Ptr{Obj: o})
 		fr.pc++
 	case *ssa.BinOp:
-		e.set(fr, x, e.binop(g, x.Op, e.get(fr, x.X), e.get(fr, x.Y), x.X.Type(), x.Y.Type()))
+		r := e.binop(g, x.Op, e.get(fr, x.X), e.get(fr, x.Y), x.X.Type(), x.Y.Type())
+		if x.Op == token.QUO && len(e.cfg.ConcretizeDiv) > 0 {
+			// case split on the value of an integer quotient (every feasible value is explored,
+			// feasibility decided by the solver): keeps loops driven by the quotient concrete
+			if t, ok := r.(*term.T); ok && !t.IsConst() && t.W > 0 && !isFloat(x.X.Type()) {
+				name := fr.fn.String()
+				for _, p := range e.cfg.ConcretizeDiv {
+					if strings.HasPrefix(name, p) {
+						r = e.tb.Const(t.W, e.Concretize(t, "quotient in "+name))
+						break
+					}
+				}
+			}
+		}
+		e.set(fr, x, r)
 		fr.pc++
 	case *ssa.UnOp:
 		if x.Op == token.ARROW {
